@@ -218,6 +218,11 @@ func parseRangeWithoutLength(s string) ([]ByteRange, error) {
 			if i < 0 || err != nil {
 				return nil, errors.New("invalid range")
 			}
+			if i == 0 {
+				// A zero suffix-length selects nothing (RFC 7233, Section 2.1);
+				// -0 must not be mistaken for "from offset 0".
+				continue
+			}
 			r.From = -i
 		} else {
 			i, err := strconv.ParseInt(start, 10, 64)
